@@ -231,7 +231,8 @@ pub fn gen_c01(run: &mut Run, seed: u64, thorough: bool) {
         let n = if sc < 4 { sc as usize + 1 } else { g.rng.range(1, max_n) as usize };
         let wclass = if sc % 5 == 3 { 2 } else { g.rng.below(2) };
         let tclass = g.rng.below(4);
-        let retention = g.rng.below(4);
+        // retention settings include "keep forever" (u64::MAX) and its neighbour
+        let retention = match sc % 7 { 5 => u64::MAX, 6 => u64::MAX - 1, _ => g.rng.below(4) };
         let first = g.mk_set(n, wclass, tclass);
         g.new_gateway(&format!("c01-{sc}"), vec![first.clone()], retention, 0);
         // history: 0..3 rotations so that `signing` may be latest / retained / expired
